@@ -24,6 +24,8 @@ namespace sqf::runtime
             std::vector<sqf::runtime::instruction::sptr>::const_reverse_iterator end,
             short parent_precedence, bool left_from_binary) const = 0;
         virtual bool equals(const instruction* p_other) const = 0;
+        /// Instructions that are equal (see equals) must hash equally.
+        virtual std::size_t hash() const { return std::hash<std::string>()(to_string()); }
 
         sqf::runtime::diagnostics::diag_info diag_info() const { return m_diag_info; }
         void diag_info(sqf::runtime::diagnostics::diag_info dinf) { m_diag_info = dinf; }
